@@ -12,7 +12,6 @@
 package main
 
 import (
-	"crypto/sha256"
 	"fmt"
 	"go/ast"
 	"go/parser"
@@ -27,7 +26,7 @@ import (
 var emptyGuard = regexp.MustCompile(`^if len\((\w+)\.items\) == 0 \{ return \}$`)
 var flushLast = regexp.MustCompile(`^if len\((\w+)\.characters\) > 0 \{ (\w+)\.lines = append\((\w+)\.lines, (\w+)\) \}$`)
 
-func main() { ex.Main([]string{"ListFacts.lean"}, gen) }
+func main() { ex.Main([]string{"ListFacts.lean", "DynSkel.lean"}, gen) }
 
 // norm prints a node and collapses all white space.
 func norm(c *ex.Ctx, n ast.Node) string {
@@ -421,108 +420,10 @@ func gen(c *ex.Ctx) {
 	if d == nil {
 		return
 	}
-	const plainCond = "int(idx) < len(s.Children)"
-	const guardCond = "d.cursor >= d.scroll.top && int(idx) < len(s.Children)"
-	dynGuard := false
-	found := 0
-	if fd := ex.FindFunc(d, "Dynamic", "Draw"); fd != nil {
-		// the cursor-gutter block: `if d.DrawCursor { … idx := d.cursor - d.scroll.top; if COND { ch := s.Children[idx] …`
-		ast.Inspect(fd.Body, func(n ast.Node) bool {
-			outer, ok := n.(*ast.IfStmt)
-			if !ok || norm(c, outer.Cond) != "d.DrawCursor" {
-				return true
-			}
-			for _, st := range outer.Body.List {
-				if in, ok := st.(*ast.IfStmt); ok && len(in.Body.List) > 0 && norm(c, in.Body.List[0]) == "ch := s.Children[idx]" {
-					found++
-					switch norm(c, in.Cond) {
-					case plainCond:
-					case guardCond:
-						dynGuard = true
-						in.Cond = &ast.Ident{Name: "VERIF_CURSOR_COND"}
-					default:
-						c.Fail("%s: cursor-gutter condition %q not recognised", c.Pos(in), norm(c, in.Cond))
-					}
-					if !dynGuard {
-						in.Cond = &ast.Ident{Name: "VERIF_CURSOR_COND"}
-					}
-				}
-			}
-			return false
-		})
-		if found != 1 {
-			c.Fail("vxfw/list/list.go: Dynamic.Draw: %d cursor-gutter blocks found, want 1", found)
-		}
-	}
-	// insertChildren: the break after an insertion, `if d.scroll.top == 0 { break }` or
-	// `if d.scroll.top == 0 || ah <= 0 { break }` (repair F119f)
-	insertStops := false
-	foundBreak := 0
-	if fd := ex.FindFunc(d, "Dynamic", "insertChildren"); fd != nil {
-		ast.Inspect(fd.Body, func(n ast.Node) bool {
-			in, ok := n.(*ast.IfStmt)
-			if !ok || len(in.Body.List) != 1 || norm(c, in.Body.List[0]) != "break" {
-				return true
-			}
-			switch norm(c, in.Cond) {
-			case "d.scroll.top == 0":
-				foundBreak++
-				in.Cond = &ast.Ident{Name: "VERIF_INSERT_BREAK"}
-			case "d.scroll.top == 0 || ah <= 0":
-				foundBreak++
-				insertStops = true
-				in.Cond = &ast.Ident{Name: "VERIF_INSERT_BREAK"}
-			}
-			return true
-		})
-		if foundBreak != 1 {
-			c.Fail("vxfw/list/list.go: Dynamic.insertChildren: %d recognised break conditions after the insertion, want 1", foundBreak)
-		}
-	}
-	// repairs F119b/c/d: presence of the repaired statements (interim textual recognition)
-	has := func(fn, text string) bool {
-		fd := ex.FindFunc(d, "Dynamic", fn)
-		return fd != nil && strings.Contains(normStr(c.Src(fd.Body)), normStr(text))
-	}
-	clampTop := has("Draw", "for d.scroll.top > 0 && d.Builder(d.scroll.top, d.cursor) == nil { d.scroll.top -= 1 d.scroll.offset = 0 }")
-	gapSites := []bool{
-		has("Draw", "ah = last.Origin.Row + int(last.Surface.Size.Height) + d.Gap"),
-		has("Draw", "ch.Origin.Row+int(ch.Surface.Size.Height)+d.Gap > 0"),
-		has("insertChildren", "ah -= int(s.Size.Height) + d.Gap"),
-		has("insertChildren", "row += int(ch.Surface.Size.Height) + d.Gap"),
-	}
-	gapAbove := gapSites[0]
-	for _, g := range gapSites {
-		if g != gapAbove {
-			c.Fail("vxfw/list/list.go: Dynamic counts d.Gap at some but not all of the four upward-scroll sites: %v", gapSites)
-		}
-	}
-	revealAbove := has("Draw", "} else if ch.Origin.Row < 0 { adj := -ch.Origin.Row")
-	// everything else the hand-written model transcribes is pinned by a digest of its normalised
-	// source (the cursor-gutter condition replaced by a placeholder)
-	want := map[string]string{
-		"Draw": "b0f876164438b672", "insertChildren": "d1bd4cf0bad11dab", "NextItem": "8e80839a17f62206",
-		"PrevItem": "74bcf84bf73521a0", "ensureScroll": "81dabf4a2c39627a", "SetCursor": "fd70cda53d473a1e",
-		"SetPendingScroll": "2f8d3b205c29da46", "HandleEvent": "4008face951abae6", "CaptureEvent": "9022d9aae43be6e0",
-		"Cursor": "16a4f696940a09df", "Offset": "a1fd1f518813ca53",
-	}
-	for _, nm := range []string{"Draw", "insertChildren", "NextItem", "PrevItem", "ensureScroll", "SetCursor", "SetPendingScroll", "HandleEvent", "CaptureEvent", "Cursor", "Offset"} {
-		fd := ex.FindFunc(d, "Dynamic", nm)
-		if fd == nil {
-			c.Fail("vxfw/list/list.go: Dynamic.%s not found", nm)
-			continue
-		}
-		got := fmt.Sprintf("%x", sha256.Sum256([]byte(canon(c, fd))))[:16]
-		if got != want[nm] {
-			c.Fail("vxfw/list/list.go: Dynamic.%s changed (digest %s, the model transcribes %s): re-read the function and update Model/DynList.lean", nm, got, want[nm])
-		}
-	}
-	fmt.Fprintf(&sb, "\n/-- `Draw` starts by walking `scroll.top` back to a widget the Builder still returns (repair F119b). -/\ndef dynClampTop : Bool := %v\n", clampTop)
-	fmt.Fprintf(&sb, "\n/-- `insertChildren`, the accumulated height after it and the final re-anchoring loop count `d.Gap` (repair F119c). -/\ndef dynGapAbove : Bool := %v\n", gapAbove)
-	fmt.Fprintf(&sb, "\n/-- The wants-cursor block moves a cursored widget that starts above row 0 down to row 0 (repair F119d). -/\ndef dynRevealAbove : Bool := %v\n", revealAbove)
-	fmt.Fprintf(&sb, "\n/-- `insertChildren` stops inserting as soon as the accumulated height is used up (`|| ah <= 0` in the break after an insertion), so that `scroll.top` is the first inserted widget. -/\ndef dynInsertStops : Bool := %v\n", insertStops)
-	fmt.Fprintf(&sb, "\n/-- The cursor-gutter block of `Dynamic.Draw` tests `d.cursor >= d.scroll.top &&` before indexing. -/\ndef dynCursorGuard : Bool := %v\n", dynGuard)
-
+	// everything the hand-written model transcribes is translated structurally into Gen/DynSkel.lean
+	// (skel.go) and pinned there by theorems (Props/C19Tie.lean); the five repair facts are read off
+	// the skeleton in Lean (Model/ListGen.lean)
+	genSkel(c, d)
 	sb.WriteString("\nend VaxisModel.Gen.ListFacts\n")
 	c.Write("ListFacts.lean", sb.String())
 }
